@@ -16,7 +16,7 @@ Not decided: arrival at the chart under all schedules.
 import ast
 
 from sa.model import AnalysisError, walk_shallow, dotted, norm
-from sa.util import cfg_of, shallow_calls, signal_const, local_defs, resolve_name, guarded_by_edge, strip_not, compare_parts, expand_locals
+from sa.util import is_param_or_defaulted, cfg_of, shallow_calls, signal_const, local_defs, resolve_name, guarded_by_edge, strip_not, compare_parts, expand_locals
 from sa.context import callgraph
 from sa import wrap
 from sa.cfg import INF
@@ -84,11 +84,13 @@ def check(run, model, tier):
                  '' if ok else 'fabric.%s is called %s times on some path of %s' % (meth, cnt, nm), obligation=True)
         for n, c in calls:
             args = [norm(a) for a in c.args]
+            fdefs_ = local_defs(f.node)
             if first:
-                ok = bool(c.args) and dotted(c.args[0]) == f.params[0] + '.queue' and args[1:] == f.params[1:]
+                ok = bool(c.args) and dotted(c.args[0]) == f.params[0] + '.queue' and len(c.args) - 1 == len(f.params[1:]) and \
+                    all(is_param_or_defaulted(a_, p_, fdefs_) for a_, p_ in zip(c.args[1:], f.params[1:]))
                 why = 'fabric.subscribe must receive this object\'s own queue and the caller\'s (event, queue_type); got (%s)' % ', '.join(args)
             else:
-                ok = args == f.params[1:]
+                ok = len(c.args) == len(f.params[1:]) and all(is_param_or_defaulted(a_, p_, fdefs_) for a_, p_ in zip(c.args, f.params[1:]))
                 why = 'fabric.publish must receive the caller\'s (event, priority); got (%s)' % ', '.join(args)
             run.inst('DELEGATE.pubsub', f, 'arguments of fabric.%s' % meth, ok, '' if ok else why, node=c, obligation=True)
     # ---- subscribe()/publish(): the two configurations
@@ -197,7 +199,7 @@ def check(run, model, tier):
                     for kw in pv.keywords:
                         given[kw.arg] = kw.value
                     # every field is fed from the parameter of the same role (positionally)
-                    good = set(given) == set(fields) and all(isinstance(given[fl], ast.Name) and given[fl].id == p for fl, p in zip(fields, f.params[1:]))
+                    good = set(given) == set(fields) and all(is_param_or_defaulted(given[fl], p, defs) for fl, p in zip(fields, f.params[1:]))
                 run.inst('DELEGATE.pubsub', f, 'payload %s(%s) carries the caller\'s arguments' % (tup, ', '.join(fields)), good,
                          '' if good else 'the deferred request does not carry the caller\'s arguments in %s' % tup, node=c, obligation=True)
     # ---- top(): the meta arms
